@@ -848,6 +848,14 @@ async fn ensure_proposition(
         }
     }
 
+    // An earlier clause of this block may have created the tuple already.
+    if let Some(id) = tx.staged_proposition(&key) {
+        if let Some(handle) = &clause.handle {
+            tx.bind_existing(handle, id)?;
+        }
+        return Ok(());
+    }
+
     let id = tx.mint(ElementKind::Proposition).await?;
     if let Some(handle) = &clause.handle {
         tx.bind_existing(handle, id)?;
